@@ -225,10 +225,19 @@ TopIdx(ss, n) == CHOOSE i \in DOMAIN ss : ss[i].k \in {"let", "in"} /\ ss[i].n =
 CheckLabels(p, k) ==
   LET u == UnitsOf(p)[k]  ss == StmtsOf(p, k) IN
   /\ \A n \in OutNames(ss) :
-        LET P == {e \in Ids(u) : Desc(u, e).var = n /\ Desc(u, e).role \in {"producer", "const", "input"}}
-            ln == LineOf(ss, TopIdx(ss, n))
-        IN (\E e \in P : Desc(u, e).line = ln)
-           \/ Fail(p, "C20_label", [unit |-> k, name |-> n, line |-> ln, producers |-> {<<Desc(u, e).raw>> : e \in P}])
+        LET ln == LineOf(ss, TopIdx(ss, n))
+            A == AnchorsOf(u, n)
+            K == ConstsOf(u, n)
+            \* the combinator(s) driving the anchor's network; a single arithmetic/decider feeder is "the producer";
+            \* several feeders = a sum formed on the wire (no producing combinator); a constant feeder = an alias of an input
+            a == IF Cardinality(A) = 1 THEN CHOOSE e \in A : TRUE ELSE 0
+            F == IF a = 0 THEN {} ELSE FeedDynT[u][a][1] \cup FeedDynT[u][a][2]
+            named(e) == Desc(u, e).var = n /\ Desc(u, e).line = ln
+        IN IF a = 0 THEN (Cardinality(K) = 1 /\ A = {} /\ named(CHOOSE e \in K : TRUE))
+                         \/ Fail(p, "C20_label", [unit |-> k, name |-> n, line |-> ln, why |-> "no unique anchor or labelled constant"])
+           ELSE /\ (named(a) \/ Fail(p, "C20_label", [unit |-> k, name |-> n, line |-> ln, anchor |-> Desc(u, a).raw]))
+                /\ (Cardinality(F) # 1 \/ named(CHOOSE e \in F : TRUE)
+                     \/ Fail(p, "C20_label", [unit |-> k, name |-> n, line |-> ln, producer |-> Desc(u, CHOOSE e \in F : TRUE).raw]))
   /\ \A i \in {i \in DOMAIN ss : ss[i].k = "in" /\ ss[i].t # ""} :
         LET n == ss[i].n
             K == {e \in Ids(u) : KindT[u][e] = "C" /\ Desc(u, e).var = n /\ Desc(u, e).role = "input"}
@@ -236,6 +245,10 @@ CheckLabels(p, k) ==
                           /\ NCT[u][e] = Single(u, ss[i].t, ss[i].dv))
            \/ Fail(p, "C20_input", [unit |-> k, name |-> n, line |-> LineOf(ss, i), found |-> {<<Desc(u, e).raw>> : e \in K}])
 ASSUME \A p \in PIDs : \A k \in DOMAIN UnitsOf(p) : (~Active("C20_label") /\ ~Active("C20_input")) \/ ~WiresOK(UnitsOf(p)[k]) \/ CheckLabels(p, k)
+
+(* C11_range: every constant placed in an accepted blueprint is a signed 32-bit value (the encoder reports the others) *)
+ASSUME \A p \in PIDs : \A k \in DOMAIN UnitsOf(p) :
+         LET o == Get(BPs[UnitsOf(p)[k]], "oor", <<>>) IN Len(o) = 0 \/ Fail(p, "C11_range", [unit |-> k, constants |-> o])
 
 (* ------------------------------ behaviour ------------------------------ *)
 MaxTick(p) == LET n == Len(Ents(U(p))) + (IF HasTwin(p) THEN Len(Ents(Recs[p].u2)) ELSE 0) IN n + 3
